@@ -103,6 +103,8 @@ B96Bad(r) ==
       verOk == (dd.ok /\ kd.ok /\ r.rcSign = 0 => r.rcVerify = 0)
                /\ (dd.ok /\ r.rcSign2 = 0 => r.rcVerify2 = 0 /\ Less(Num(SubSeq(r.sig2, 11, 34)), q))
                /\ (dd.ok => r.rcSign2 = 0)
+               \* the optional data t of the deterministic edition (empty, 1, 40 octets): signs, verifies, is deterministic
+               /\ ((dd.ok /\ Has(r, "sign2t")) => \A i \in 1..Len(r.sign2t) : r.sign2t[i] = 0)
       altOk(i) ==
         LET x == r.alts[i]
             Q2 == PtOf(x.pub)
